@@ -340,4 +340,26 @@ CHECKS = {
                 "min/max mapping are compared within one unit of float64 "
                 "precision (documented limitation of the tool).",
     },
+    "C06": {
+        "engine": "E-INPUT", "level": "exploration",
+        "technique": "bounded exhaustive enumeration of generator-produced "
+                     "infos (sizes x resolution ratios x targets; methods x "
+                     "dtypes x channels x storage) with a differential "
+                     "oracle (whole-level downscale) and double poison runs",
+        "text": "Infos come from the real scale generator over 199 sizes x "
+                "127 resolution triples x 3 target chunk sizes (a fixed "
+                "slice of the 75819-element product per tier) and a methods "
+                "x data types x channels x storage product on 12 "
+                "geometries; scale 0 is written position-coded through "
+                "PrecomputedIO, compute_dyadic_scales runs twice with "
+                "numpy.empty replaced by poison fills 251 and 253, all "
+                "levels are read back through a fresh accessor; every level "
+                "must be identical in both runs (no unwritten voxel) and "
+                "equal the package's downscaler applied to the whole "
+                "previous level. An exception is accepted only outside the "
+                "envelope the computation supports; outside the envelope a "
+                "normal return must still be correct.",
+        "note": "Volumes of at most 700 voxels; the downscaler itself is "
+                "C07's business.",
+    },
 }
